@@ -87,6 +87,11 @@ def generate(tier, seed):
         pick = singles + (pairs if tier == "thorough" else rng.sample(pairs, min(2, len(pairs))))
         for d in pick:
             cases.append({"kind": "fragment", "frag": f, "delete": d, "seed": "%d:fr:%s:%s" % (seed, f, "-".join(d)), "cost": 6})
+    # several conformations (models, alternate locations - labels out of order, missing 'A', three states), with atoms,
+    # residues or chains missing from some of them: what is missing is completed from the earliest conformation
+    # that has it, and every site is reported for the conformations that hold its atom
+    for k in range(200 if tier == "quick" else 3000):
+        cases.append({"kind": "conformations", "seed": "%d:mc:%d" % (seed, k), "cost": 25})
     for k, m in enumerate(("empty", "remark-only", "water-only", "hydrogen-only", "ext-xyz", "ext-none", "ext-gz",
                            "ext-upper", "ext-mixed", "blank-lines", "ext-pqr", "ter-only")):
         cases.append({"kind": "reject", "mode": m, "seed": "%d:rej:%d" % (seed, k), "cost": 2})
@@ -293,6 +298,20 @@ def run_case(case, tier):
         recs = [a for a in base if a.raw is not None or (a.chain, a.resnum, a.icode) != resid or a.aname() not in dele]
         deleted = [(case["res"], n, "ATOM  ") for n in dele if any(a.aname() == n for a in tatoms)]
         desc.update({"res": case["res"], "pos": case["pos"], "deleted": sorted(dele)})
+    elif kind == "conformations":
+        from .. import multiconf
+        recs, dm_ = multiconf.build(rng)
+        # a few more atoms removed, from any conformation
+        deleted = []
+        out_ = []
+        for r in recs:
+            if r.raw is None and r.aname() not in ("N", "CA", "C") and rng.random() < 0.02:
+                deleted.append((r.resn, r.aname(), r.tag))
+                continue
+            out_.append(r)
+        recs = out_
+        desc.update({"how": "several conformations", "events": dm_.get("events")})
+        classes.append("several-conformations")
     elif kind == "special":
         base = sources.random_small_structure(rng, 80, 500) if rng.random() < 0.6 else sources.chimera(rng)[0]
         if case["mode"] == "oxt-without-c":
@@ -384,6 +403,22 @@ def run_case(case, tier):
                      "detail": {"deleted": deleted[:12]}})
     else:
         census_mon.check(run, text, viol, counts, classes, allow_topup_extras=True, remove_penalised=not keep_pen)
+        if kind == "conformations" and sources.identities_unique(recs):
+            from .. import multiconf
+            r2_ = obs.run_single(text, xo, with_atoms=True, write_pka=False)
+            counts["pipeline_runs"] += 1
+            if not r2_.exc:
+                nv_ = len(viol)
+                multiconf.check_topup(r2_.rec, text, tuple(util.parse_cfg()["ignore_residues"]), viol, counts, classes)
+                seen_ = {}
+                for r_ in recs:
+                    if r_.raw is None:
+                        seen_.setdefault((r_.chain, r_.resnum), set()).add(r_.icode)
+                tw_ = {k_ for k_, v_ in seen_.items() if len(v_) > 1}
+                for v_ in viol[nv_:]:
+                    res_ = v_.pop("res", None)
+                    if res_ is not None and ((res_[0] if res_[0] != "_" else " "), res_[1]) in tw_:
+                        v_["cls"] = "twins:" + v_["cls"]
         # whatever is missing, a group is placed on what is left of it: its centre lies within a few Angstrom
         # of its defining atom (never at the coordinate origin or on another residue)
         for cname_ in run.rec["names"]:
